@@ -26,16 +26,20 @@ Theorem C35_resolve_total : forall sel, wf_sel crates sel = true -> exists St, r
 Proof. exact resolve_sel_total. Qed.
 Print Assumptions C35_resolve_total.
 
-(* refuted: zbus + zvariant[gvariant] — supported, yet zvariant's host build (below zbus_macros) lacks `gvariant` while
-   its zvariant_utils has it *)
-Theorem C35_coherent_refuted : exists sel,
-  sel = [ {| q_crate := B "zbus"; q_default := true; q_feats := [] |};
-          {| q_crate := B "zvariant"; q_default := true; q_feats := [B "gvariant"] |} ] /\
+(* fixed (was C35_coherent_refuted, class gvariant_split; /repo commit b1eb512d): zbus + zvariant[gvariant] is now coherent —
+   zvariant's matches over Signature / Format have `#[cfg(not(feature = "gvariant"))]` catch-all arms, so the rule
+   zvariant_utils/gvariant => zvariant/gvariant is no longer read off the sources. The check builds this selection on
+   every run; if it fails to build again that is an ordinary violation. *)
+Theorem C35_gvariant_fixed :
+  let sel := [ {| q_crate := B "zbus"; q_default := true; q_feats := [] |};
+               {| q_crate := B "zvariant"; q_default := true; q_feats := [B "gvariant"] |} ] in
   wf_sel crates sel = true /\
-  exists St, resolve_sel crates sel = Some St /\ supported St = true /\
-             forallb (unit_coherent St) (units crates St) = false /\ violated St is_gvariant_split = true.
-Proof. exact gvariant_refuted. Qed.
-Print Assumptions C35_coherent_refuted.
+  match resolve_sel crates sel with
+  | Some St => coherent St && supported St && negb (known_class St)
+  | None => false
+  end = true.
+Proof. exact gvariant_now_coherent. Qed.
+Print Assumptions C35_gvariant_fixed.
 
 (* refuted: zbus[no default, tokio] + zbus_macros[blocking-api] — zbus's own #[proxy] items name zbus::blocking *)
 Theorem C35_blocking_refuted : exists sel,
@@ -47,8 +51,8 @@ Theorem C35_blocking_refuted : exists sel,
 Proof. exact blocking_refuted. Qed.
 Print Assumptions C35_blocking_refuted.
 
-(* partial: for EVERY selection, every unit satisfies every rule other than the two known ones
-   (Known_C35 r = is_gvariant_split r || is_blocking_split r) *)
+(* partial: for EVERY selection, every unit satisfies every rule other than the known one
+   (Known_C35 r = is_blocking_split r) *)
 Theorem C35_coherent_partial_units : forall sel, wf_sel crates sel = true ->
   forall St, resolve_sel crates sel = Some St ->
   forallb (fun u => forallb (fun r => Known_C35 r || negb (rule_applies u r) || rule_holds St (snd u) r) rules)
@@ -63,7 +67,7 @@ Theorem C35_coherent_partial : forall sel, wf_sel crates sel = true ->
 Proof. exact coherent_partial. Qed.
 Print Assumptions C35_coherent_partial.
 
-(* the repair available to a user today: also enabling zbus_macros/gvariant makes the first witness coherent *)
+(* the workaround users had before b1eb512d (also enabling zbus_macros/gvariant) stays coherent *)
 Theorem C35_gvariant_workaround :
   match resolve_sel crates
           [ {| q_crate := B "zbus"; q_default := true; q_feats := [] |};
@@ -75,10 +79,11 @@ Theorem C35_gvariant_workaround :
 Proof. exact gvariant_repaired_coherent. Qed.
 Print Assumptions C35_gvariant_workaround.
 
-(* the mechanism of the first witness: each pair is an edge of the feature graph (the second fact is among the direct
+(* documentation of the feature graph behind the former finding: each pair is an edge (the second fact is among the direct
    consequences of the first); the chain leads from the target build of zvariant, through the host-only proc-macro crate
    zvariant_derive, to `gvariant` on the HOST build of zvariant_utils, while zbus -> zbus_macros (host) -> zvariant (host)
-   brings a host build of zvariant for which nothing requests `gvariant` *)
+   brings a host build of zvariant for which nothing requests `gvariant`. This is still what cargo resolves; since b1eb512d
+   it is harmless because the host zvariant covers the extra variants with its catch-all arms (C35_gvariant_fixed). *)
 Theorem C35_gvariant_mechanism :
   forallb (fun e => mem (snd e) (psuccs crates (fst e)))
     [ (FV (B "zvariant") KT (FvFeat (B "gvariant")), FV (B "zvariant") KT (FvDepFeat (B "zvariant_derive") (B "gvariant") false));
